@@ -253,7 +253,9 @@ def run_case(case, seg, viol, unsound, stats, sample):
         return
     mode = case["mode"]
     if mode == "planted":
-        table = SL.planted_table(gene, planted, case["depth"])
+        # the statement's noise-free clause is about catalogued *major* alleles: core variants only
+        # (a silent variant of a sub-allele sitting on another allele's core site is outside it)
+        table = SL.planted_table(gene, [(ma, None) for ma, mi in planted], case["depth"])
     elif mode == "noisy":
         table = SL.planted_table(gene, planted, case["depth"], rng, noise=rng.choice([0.1, 0.25, 0.4]),
                                  extra_noise=rng.choice([0, 0, 1, 2]))
